@@ -66,7 +66,7 @@ class Algebra:
         self.canon = {}
 
     def fatom(self, kind, arg):
-        if not arg:
+        if not arg and kind in ('sin', 'cos'):
             return P(0) if kind == 'sin' else P(1)
         key = (kind, tuple(sorted(arg.items())))
         if key not in self.canon:
@@ -150,6 +150,22 @@ class Algebra:
         if k == 'ArraySubscriptExpr':
             base = _strip_casts(e.child('base') or e.c[0])
             idx = _strip_casts(e.child('idx') or e.c[1])
+            if base.k == 'MemberExpr' and base.n == 'e' and idx.cv in (0, 1):
+                # Vec2's array view of its two components
+                bb = base.child('base')
+                bb = _strip_casts(bb) if bb is not None else None
+                while bb is not None and bb.k == 'MemberExpr' and not bb.n:
+                    b2 = bb.child('base')
+                    bb = _strip_casts(b2) if b2 is not None else None
+                if bb is None or bb.k == 'CXXThisExpr':
+                    nm = 'x' if idx.cv == 0 else 'y'
+                    if nm in env:
+                        return env[nm]
+                    raise Unsupported('component of an unbound object')
+                v = self.value(bb, env)
+                if self.isvec(v):
+                    return v[1 + idx.cv]
+                raise Unsupported('e[] of a non-vector')
             if base.k in ('DeclRefExpr', 'MemberExpr') and idx.cv is not None:
                 nm = '%s[%d]' % (base.n, idx.cv)
                 return env[nm] if nm in env else atom(nm)
@@ -157,6 +173,33 @@ class Algebra:
         if k == 'UnaryOperator' and e.op in ('-', '+'):
             v = self.value(e.child('sub'), env)
             return v if e.op == '+' else self.vmul(v, P(-1))
+        if k == 'CXXOperatorCallExpr' and e.callee and e.op in ('+', '-', '*', '/'):
+            g = [x for x in (self.db.fn(e.callee, required=False, all=True) or []) if x.body is not None] if self.db is not None else []
+            sig = [a for a in e.args]
+            g = [x for x in g if len(x.params) == len(sig)]
+            if len(g) >= 1:
+                vals = [self.value(a, env) for a in sig]
+                # overloads differ by operand kinds (Vec2 x double, double x Vec2, Vec2 x Vec2): pick by parameter types
+                def fits(fn):
+                    return all(('Vec2' in (p_.get('t') or '')) == self.isvec(v) for p_, v in zip(fn.params, vals))
+                gg = [x for x in g if fits(x)]
+                if len(gg) == 1:
+                    return self.inline(gg[0], vals)
+        if k == 'CXXThisExpr' or (k == 'UnaryOperator' and e.op == '*' and _strip_casts(e.child('sub')).k == 'CXXThisExpr'):
+            if 'x' in env and 'y' in env:
+                return self.vec(env['x'], env['y'])
+            raise Unsupported('`this` outside an inlined Vec2 method')
+        if k == 'CXXMemberCallExpr' and e.callee:
+            ob = e.child('obj')
+            ov = self.value(ob, env) if ob is not None else (self.vec(env['x'], env['y']) if 'x' in env and 'y' in env else None)
+            if ov is None:
+                raise Unsupported('member call without object')
+            g = [x for x in (self.db.fn(e.callee, required=False, all=True) or []) if x.body is not None] if self.db is not None else []
+            if self.isvec(ov) and len(g) == 1 and not any(is_assign(x) or x.k == 'CompoundAssignOperator' for x in g[0].walk()):
+                en = {'x': ov[1], 'y': ov[2], 'u': ov[1], 'v': ov[2], 're': ov[1], 'im': ov[2]}
+                for p_, a in zip(g[0].params, e.args):
+                    en[p_['n']] = self.value(a, env)
+                return self.block([s for s in g[0].body.c if s is not None], en, want='return')
         if k == 'CXXOperatorCallExpr' and e.op == '-' and len(e.args) == 1:
             return self.vmul(self.value(e.args[0], env), P(-1))
         if k in ('BinaryOperator', 'CXXOperatorCallExpr') and e.op in ('+', '-', '*', '/'):
@@ -168,9 +211,11 @@ class Algebra:
                 return self.vadd(a, b, -1)
             if e.op == '*':
                 return self.vmul(a, b)
-            if self.isvec(b) or not is_const(b) or not b:
-                raise Unsupported('division by a non-constant')
-            return self.vmul(a, P(1 / b[()]))
+            if self.isvec(b) or not b:
+                raise Unsupported('division by a vector or by zero')
+            if is_const(b):
+                return self.vmul(a, P(1 / b[()]))
+            return self.vmul(a, self.fatom('inv', b))   # reciprocal of a symbolic quantity: an opaque atom keyed by the canonical divisor
         if k == 'ConditionalOperator':
             c = self.value(e.child('cond'), env)
             if self.isvec(c) or not is_const(c):
@@ -251,7 +296,9 @@ class Algebra:
                 return {}
             if kind == 'sin':
                 return mul(self.fatom('cos', arg), inner)
-            return mul(mul(self.fatom('sin', arg), P(-1)), inner)
+            if kind == 'cos':
+                return mul(mul(self.fatom('sin', arg), P(-1)), inner)
+            raise Unsupported('derivative of %s' % kind)
         return {}
 
     # ---- trigonometric expansion: sin/cos of a sum of +-1 * angle atoms -> products of sin/cos of single angles
